@@ -670,7 +670,73 @@ def rule_decimal_context_pinned(ctx: Ctx, rep: Report) -> None:
     rep.floor(rule, 4)
 
 
+def rule_tweak_arms_agree(ctx: Ctx, rep: Report) -> None:
+    """C20.tweak_arms_agree: the taproot tweak of an internal key has two arms, the
+    x-only binding and the Python arithmetic, and BIP341's lift takes the
+    even-y point of the key's x whatever prefix the key came with. The
+    binding does that by itself; on the Python arm the point handed to
+    `add_var` has its y chosen by parity (`y if y % 2 == 0 else p - y`), or
+    comes from a helper that lifts. `pub_key.point` as it stands is the odd
+    point for an 03 key -- another output key, with the bindings off only."""
+    rule = "C20.tweak_arms_agree"
+    fi = ctx.func("btclib.script.taproot._tweaked_pubkey")
+    local = {a.targets[0].id: a.value for a in own_nodes(fi.node) if isinstance(a, ast.Assign) and len(a.targets) == 1 and isinstance(a.targets[0], ast.Name)}
+    adds = [c for c in own_nodes(fi.node) if isinstance(c, ast.Call) and isinstance(c.func, ast.Attribute) and c.func.attr in ("add_var", "add", "_add_aff", "_add_jac") and c.args]
+    if len(adds) != 1:
+        rep.unknown(rule, "_tweaked_pubkey", fi.where(), f"{len(adds)} point additions on the Python arm")
+        return
+
+    def res(e: ast.AST, d: int = 0) -> ast.AST:
+        while isinstance(e, ast.Name) and e.id in local and d < 5:
+            e, d = local[e.id], d + 1
+        return e
+
+    def parity_choice(e: ast.AST) -> bool:
+        e = res(e)
+        return isinstance(e, ast.IfExp) and "% 2" in norm(e.test) and any(isinstance(n, ast.BinOp) and isinstance(n.op, ast.Sub) and norm(n.left).endswith(".p") for n in ast.walk(e))
+
+    p0 = res(adds[0].args[0])
+    ok = (isinstance(p0, ast.Tuple) and len(p0.elts) == 2 and parity_choice(p0.elts[1])) or \
+         (isinstance(p0, ast.Call) and any(w in call_name(p0).lower() for w in ("lift", "even")))
+    rep.ob(rule, "_tweaked_pubkey:python_arm_lifts", ok, fi.where(adds[0]), "the point added to t*G is the even-y lift" if ok else
+           f"`{norm(adds[0])}` adds t*G to `{norm(adds[0].args[0])}` as it stands: for an 03 key that is the odd-y point, and the output key differs from the one the x-only binding computes")
+    rep.floor(rule, 1)
+
+
+def rule_verdict_on_both_arms(ctx: Ctx, rep: Report) -> None:
+    """C20.verdict_on_both_arms: the interpreter's `dsa_verify` answers False for a key
+    or a signature that does not parse, on whichever arithmetic runs: every
+    call that can refuse the octets -- the binding's verify, `point_from_octets`
+    -- sits inside a `try` whose ValueError handler returns
+    False. The Python arm outside it turns a failed CHECKSIG into an
+    exception out of the script engine, with the bindings off only."""
+    rule = "C20.verdict_on_both_arms"
+    fi = ctx.func("btclib.script.engine.script.dsa_verify")
+    n = 0
+    for c in sorted((c for c in own_nodes(fi.node) if isinstance(c, ast.Call)), key=lambda c: (c.lineno, c.col_offset)):
+        nm = call_name(c)
+        if nm in ("bool", "_assert_bytes_arguments", "_libsecp256k1_serves", "verify_"):
+            continue  # dsa.verify_ answers False by itself (C02.bool)
+        covered = False
+        p_ = parent(c)
+        child = c
+        while p_ is not None and p_ is not fi.node:
+            if isinstance(p_, ast.Try) and child in p_.body:
+                for h in p_.handlers:
+                    names = [norm(t) for t in (h.type.elts if isinstance(h.type, ast.Tuple) else [h.type])] if h.type is not None else ["BaseException"]
+                    if any(x in ("ValueError", "Exception", "BaseException") for x in names) and any(isinstance(s, ast.Return) and isinstance(s.value, ast.Constant) and s.value.value is False for s in h.body):
+                        covered = True
+            child, p_ = p_, parent(p_)
+        n += 1
+        rep.ob(rule, f"dsa_verify:{nm}", covered, fi.where(c), "a refusal is the verdict False" if covered else
+               f"`{norm(c)}` is outside the try that turns a refusal into False: unparsable octets are an exception on this arm and a failed verification on the other")
+    rep.floor(rule, 2)
+
+
 RULES = [
+    ("C20.tweak_arms_agree", rule_tweak_arms_agree),
+    ("C20.verdict_on_both_arms", rule_verdict_on_both_arms),
+
     ("C20.decimal_context_pinned", rule_decimal_context_pinned),
 
     ("C20.view_hands_out_copies", rule_view_hands_out_copies),
